@@ -20,7 +20,7 @@ class Token(object):
     __eq__ = __ne__ = __lt__ = __le__ = __gt__ = __ge__ = __add__ = __bool__ = _no
     def __hash__(self): return id(self)
 
-@obligation(P, 'permutk/parametric', cls='B', bound='list lengths 0..7 (quick 0..6), every k; elements are opaque tokens (proof for all element values of that length)',
+@obligation(P, 'permutk/parametric', cls='B', native=True, bound='list lengths 0..7 (quick 0..6), every k; elements are opaque tokens (proof for all element values of that length)',
             cases=lambda tier: [{'n': n} for n in range(0, 7 if tier == 'quick' else 8)], funcs=['crysp.utils.perms.permutk'])
 def _(c):
     n = c.case('n')
@@ -34,7 +34,7 @@ def _(c):
     o = c.outcome(lambda: list(perms.permutk([1, 2], -1)))
     c.ensure('negative-k-rejected', o[0] == 'exc')
 
-@obligation(P, 'combink/parametric', cls='B', bound='list lengths 1..7, every p; opaque tokens', cases=lambda tier: [{'n': n} for n in range(1, 7 if tier == 'quick' else 8)], funcs=['crysp.utils.perms.combink'])
+@obligation(P, 'combink/parametric', cls='B', native=True, bound='list lengths 1..7, every p; opaque tokens', cases=lambda tier: [{'n': n} for n in range(1, 7 if tier == 'quick' else 8)], funcs=['crysp.utils.perms.combink'])
 def _(c):
     n = c.case('n')
     for p in range(1, n + 1):
@@ -80,7 +80,7 @@ def _instances(tier):
         for w in itertools.product(ws, repeat=n): out.append([('i%d' % k, x) for k, x in enumerate(w)])
     return out
 
-@obligation(P, 'exactsum/exhaustive-small', cls='B', bound='up to 3 items (quick) / 4 items with weights in a small set, every target 0..sum+1, each call repeated', funcs=['crysp.utils.knapsack.exactsum'], cases={'part': [0, 1, 2, 3]})
+@obligation(P, 'exactsum/exhaustive-small', cls='B', native=True, bound='up to 3 items (quick) / 4 items with weights in a small set, every target 0..sum+1, each call repeated', funcs=['crysp.utils.knapsack.exactsum'], cases={'part': [0, 1, 2, 3]})
 def _(c):
     inst = _instances('quick')
     for l in inst[c.case('part')::4]:
@@ -102,7 +102,7 @@ def multisets_sum(items, s, cap=None):
         if c_: best[x] = min(c_)
     return best.get(s)
 
-@obligation(P, 'dynprog/model-with-repetition', cls='B', bound='as exactsum', funcs=['crysp.utils.knapsack.dynprog'], cases={'part': [0, 1, 2, 3]},
+@obligation(P, 'dynprog/model-with-repetition', cls='B', native=True, bound='as exactsum', funcs=['crysp.utils.knapsack.dynprog'], cases={'part': [0, 1, 2, 3]},
             note='what the table computes: a minimal-length list of GIVEN items, repetition allowed, with the exact sum; None iff impossible; repeatable')
 def _(c):
     inst = _instances('quick')
@@ -115,7 +115,7 @@ def _(c):
             if m is None: c.ensure('dynprog(%s,%d) failure' % (l, s), r is None)
             else: c.ensure('dynprog(%s,%d)' % (l, s), isinstance(r, list) and all(x in l for x in r) and sum(x[1] for x in r) == s and len(r) == m)
 
-@obligation(P, 'dynprog/sub-collection', cls='B', bound='as exactsum', funcs=['crysp.utils.knapsack.dynprog'], cases={'part': [0, 1, 2, 3]},
+@obligation(P, 'dynprog/sub-collection', cls='B', native=True, bound='as exactsum', funcs=['crysp.utils.knapsack.dynprog'], cases={'part': [0, 1, 2, 3]},
             note='the property itself: the answer is a sub-collection (no item used more often than it is given), minimal, and failure exactly when no sub-collection exists')
 def _(c):
     inst = _instances('quick')
